@@ -17,6 +17,8 @@ pub struct SmallCfg {
     pub inband_fti: bool,
     pub transfers: u32,
     pub cenc: CencSpec,
+    /// EXT_CENC on the object packets (false: the content encoding is announced by the FDT only)
+    pub inband_cenc: bool,
     pub md5: bool,
     /// the FDT travels with the tested OTI instead of a single No-Code packet
     pub fdt_same_oti: bool,
@@ -26,9 +28,9 @@ pub struct SmallCfg {
 impl SmallCfg {
     pub fn name(&self) -> String {
         format!(
-            "{}|E{}|B{}|p{}|L{}|il{}|ib{}|x{}|{}|md5{}|f{}|n{}",
+            "{}|E{}|B{}|p{}|L{}|il{}|ib{}|x{}|{}{}|md5{}|f{}|n{}",
             self.fec.name(), self.e, self.b, self.parity, self.len, self.interleave,
-            self.inband_fti, self.transfers, self.cenc.name(), self.md5, self.fdt_same_oti, self.nobj
+            self.inband_fti, self.transfers, self.cenc.name(), if self.inband_cenc { "" } else { "(fdt)" }, self.md5, self.fdt_same_oti, self.nobj
         )
     }
 }
@@ -54,6 +56,7 @@ pub fn build_small(c: &SmallCfg, seed: u64) -> Result<Emitted, String> {
         o.oti = Some(oti.clone());
         o.max_transfer_count = c.transfers;
         o.cenc = c.cenc;
+        o.inband_cenc = c.inband_cenc;
         o.md5 = c.md5;
         objs.push(o);
     }
@@ -88,7 +91,7 @@ pub fn small_catalogue(max_pkts: usize, with_cenc: bool) -> Vec<SmallCfg> {
                         for ib in [true, false] {
                             out.push(SmallCfg {
                                 fec, e: 8, b, parity, len: syms * 8 - 3, interleave: il, inband_fti: ib,
-                                transfers, cenc: CencSpec::Null, md5: true, fdt_same_oti: false, nobj: 1,
+                                transfers, cenc: CencSpec::Null, inband_cenc: true, md5: true, fdt_same_oti: false, nobj: 1,
                             });
                         }
                     }
@@ -99,10 +102,13 @@ pub fn small_catalogue(max_pkts: usize, with_cenc: bool) -> Vec<SmallCfg> {
     if with_cenc {
         for fec in [Fec::NoCode, Fec::Rs28] {
             for cenc in [CencSpec::Gzip, CencSpec::Zlib, CencSpec::Deflate] {
-                out.push(SmallCfg {
-                    fec, e: 16, b: 2, parity: if fec == Fec::NoCode { 0 } else { 1 }, len: 60, interleave: 2,
-                    inband_fti: true, transfers: 1, cenc, md5: true, fdt_same_oti: false, nobj: 1,
-                });
+                // content encoding announced in-band (EXT_CENC) or by the FDT only, x in-band / FDT-only FTI, x MD5
+                for (inband_cenc, inband_fti, md5) in [(true, true, true), (false, true, true), (false, true, false), (false, false, true), (true, false, false)] {
+                    out.push(SmallCfg {
+                        fec, e: 16, b: 2, parity: if fec == Fec::NoCode { 0 } else { 1 }, len: 60, interleave: 2,
+                        inband_fti, transfers: 1, cenc, inband_cenc, md5, fdt_same_oti: false, nobj: 1,
+                    });
+                }
             }
         }
     }
